@@ -120,6 +120,10 @@ class Ctx:
                 "(anchor moved or rule no longer matches the code)")
 
     # -- finishing -----------------------------------------------------
+    def has_new_findings(self):
+        pats = [e["key"] for e in self.load_known() if e.get("status") == "known"]
+        return any(not any(fnmatch.fnmatchcase(f.fullkey, p) for p in pats) for f in self.findings)
+
     def load_known(self):
         if not KNOWN_FILE.exists():
             return []
@@ -199,6 +203,14 @@ def run_property(prop_id, fn, tier, root, seed=0):
     ctx = Ctx(prop_id, tier=tier, root=root, seed=seed)
     try:
         fn(ctx)
+        if tier == "thorough" and not os.environ.get("PGVERIF_NO_SELFTEST") and not ctx.has_new_findings():
+            from . import selftest
+            ctx.selftest = selftest.run_selftest(prop_id, root, jobs=min(12, ctx.jobs))
+            bad = ctx.selftest.get("failed") or []
+            if bad:
+                return ctx.finish(error="self-test: " + "; ".join(
+                    f"{b['name']} ({'not reported' if b.get('expect') == 'fire' else 'reported: ' + str(b.get('reported'))}"
+                    f"{' ' + b.get('detail', '') if b.get('detail') else ''})" for b in bad[:6]))
         return ctx.finish()
     except AnalysisError as e:
         return ctx.finish(error=str(e))
